@@ -1,7 +1,39 @@
-// Further case kinds (library round trips, typed JSON, pool traces ...) are added here.
+// Further case kinds: library round trips (request / response / multipart / query / json ...).
 use crate::run::{hex, unhex};
+use crate::request::Request;
+use crate::header::Header;
+
+fn us(h: &str) -> Option<String> { String::from_utf8(unhex(h)).ok() }
+pub fn show_req(r: &Request) -> String {
+    format!("OK m={} u={} v={} h=[{}] b={}", hex(r.method.as_bytes()), hex(r.request_uri.as_bytes()), hex(r.http_version.as_bytes()),
+        r.headers.iter().map(|h| format!("{}:{}", hex(h.name.as_bytes()), hex(h.value.as_bytes()))).collect::<Vec<_>>().join(";"), hex(&r.body))
+}
+/// headers as `name:value;name:value` in hex, `-` for none
+fn headers_of(spec: &str) -> Option<Vec<Header>> {
+    let mut out = vec![];
+    if spec == "-" { return Some(out); }
+    for nv in spec.split(';') { let mut it = nv.split(':'); let n = us(it.next().unwrap_or(""))?; let v = us(it.next().unwrap_or(""))?; out.push(Header{name: n, value: v}); }
+    Some(out)
+}
+
 pub fn run_case2(f: &[&str], _home: &std::path::Path) -> String {
     match f[0] {
+        // reqrt <method> <uri> <version> <headers> <body>   (all hex): Request::generate, then Request::parse of those bytes
+        "reqrt" => {
+            let (m, u, v, hs) = (us(f[1]), us(f[2]), us(f[3]), headers_of(f[4]));
+            if m.is_none() || u.is_none() || v.is_none() || hs.is_none() { return "SKIP".to_string(); }
+            let r = Request{ method: m.unwrap(), request_uri: u.unwrap(), http_version: v.unwrap(), headers: hs.unwrap(), body: unhex(f.get(5).unwrap_or(&"")) };
+            let g = match std::panic::catch_unwind(|| r.generate()) { Err(_) => return "PANIC".to_string(), Ok(g) => g };
+            let p = match std::panic::catch_unwind(|| Request::parse(&g)) { Err(_) => "PANIC".to_string(), Ok(Err(_)) => "ERR".to_string(), Ok(Ok(r2)) => show_req(&r2) };
+            format!("G {} | {}", hex(&g), p)
+        }
+        // gethdr <headers> <name>: case-insensitive lookup, first match
+        "gethdr" => {
+            let (hs, n) = (headers_of(f[1]), us(f[2]));
+            if hs.is_none() || n.is_none() { return "SKIP".to_string(); }
+            let r = Request{ method: "GET".into(), request_uri: "/".into(), http_version: "HTTP/1.1".into(), headers: hs.unwrap(), body: vec![] };
+            match std::panic::catch_unwind(|| r.get_header(n.unwrap()).map(|h| h.value.clone())) { Err(_) => "PANIC".to_string(), Ok(None) => "NONE".to_string(), Ok(Some(v)) => format!("SOME {}", hex(v.as_bytes())) }
+        }
         _ => "?".to_string(),
     }
 }
